@@ -504,7 +504,12 @@ package semver
 //@              in3(this.min, this.minOpen, next.max, next.maxOpen, arb(v, "*Version")))
 //@   assert at "this.rank = vector": imp(mergeable(this, next, arb(v, "*Version")) && in3(this.min, this.minOpen, next.max, next.maxOpen, arb(v, "*Version")),
 //@          in3(this.min, this.minOpen, this.max, this.maxOpen, arb(v, "*Version")) || in3(next.min, next.minOpen, next.max, next.maxOpen, arb(v, "*Version")))
+//@   assert at "=i++": j == i + 1
 //@   property C09 C03
+// (The last assertion is the assumption canon's own comment states — "we'll process the element
+// now, so on the next outer loop, skip it": stepping i past ONE element is right only if the
+// element just consumed is the next one. It does not hold when elements in between were passed
+// over by `continue`; recorded as a known finding, see /verif/known_findings.txt.)
 
 // ---------------------------------------------------------------------------
 // C02 (comparator half): the ordering follows the published rules, stated from
